@@ -60,10 +60,14 @@ Proof.
   - intros id r E. rewrite E in H. inversion H; subst. reflexivity.
   - intros N. destruct (cdecq x) as [|f q] eqn:E; try discriminate.
     destruct f.
-    + destruct (lookup st (cstreams x)) as [c|]; [destruct (c_phase c)|]; inversion H; subst; reflexivity.
-    + destruct (lookup st (cstreams x)) as [c|]; [destruct (c_phase c)|]; inversion H; subst; reflexivity.
+    + destruct (lookup st (cstreams x)) as [c|]; [destruct (c_phase c); try destruct (c_unrouted c)|];
+        inversion H; subst; reflexivity.
+    + destruct (lookup st (cstreams x)) as [c|]; [destruct (c_phase c); try destruct (c_unrouted c)|];
+        inversion H; subst; reflexivity.
     + destruct (lookup st (cstreams x)) as [c|]; inversion H; subst; reflexivity.
     + exfalso. eapply N; reflexivity.
+    + destruct (lookup st (cstreams x)) as [c|]; [destruct (c_phase c); try destruct (c_unrouted c)|];
+        inversion H; subst; reflexivity.
 Qed.
 
 (* the counterexample to the original wording: a reachable state, a step, and a tail r for which the original
@@ -237,6 +241,99 @@ Proof.
   destruct (lookup s (sstreams x)); simpl; auto. rewrite lookup_remove_ne; auto.
 Qed.
 
+(* ---- writes that fail to encode, and the error frame ---- *)
+(* a failed write never deletes the routing entry of a stream (the pinned tree's Conn.send did) *)
+Theorem never_unrouted x s c : reachable current x -> lookup s (cstreams x) = Some c -> c_unrouted c = false.
+Proof. intros [tr R] E. destruct (Inv_reach _ _ R) as [A _]. exact (a_routed _ A _ _ E). Qed.
+
+(* the client's WriteMessage of a value the codec cannot encode sends nothing and leaves the stream as it was:
+   its phase, its queue, what was read and written, its routing; every other stream, the server and the
+   reader's queues are untouched *)
+Theorem bad_client_write_keeps_stream x x' s : step current x (CWriteBad s) = Some x' ->
+  w_c2s x' = w_c2s x /\ sstreams x' = sstreams x /\ cdecq x' = cdecq x /\ cstrq x' = cstrq x /\
+  (forall s', s' <> s -> lookup s' (cstreams x') = lookup s' (cstreams x)) /\
+  (forall c, lookup s (cstreams x) = Some c ->
+     exists c', lookup s (cstreams x') = Some c' /\ c_phase c' = c_phase c /\ c_events c' = c_events c /\
+       c_read c' = c_read c /\ c_written c' = c_written c /\ c_unrouted c' = c_unrouted c /\ c_lost c' = c_lost c).
+Proof.
+  intros H. simpl in H. destruct (lookup s (cstreams x)) as [c|] eqn:L; try discriminate.
+  destruct (c_phase c) eqn:P; try discriminate; destruct (c_closed c) eqn:K; inversion H; subst; clear H; simpl;
+    (repeat split; auto; [intros s' N; apply lookup_update_ne; auto|];
+     intros c0 E; inversion E; subst c0; eexists; rewrite lookup_update_eq; split; [reflexivity|]; simpl; auto 10).
+Qed.
+
+(* the handler's WriteMessage of a value the codec cannot encode returns nil, is not recorded as a written message,
+   and puts no message of any stream on the wire *)
+Theorem bad_server_write_sends_no_message x x' s c : lookup s (sstreams x) = Some c -> s_closed c = false ->
+  step current x (SWriteBad s) = Some x' ->
+  (forall s', msgs_s2c s' (w_s2c x') = msgs_s2c s' (w_s2c x)) /\
+  exists c', lookup s (sstreams x') = Some c' /\ s_written c' = s_written c /\ s_wres c' = s_wres c ++ [true].
+Proof.
+  intros L K H. simpl in H. rewrite L, K in H. destruct (negb (s_started c)); try discriminate.
+  inversion H; subst; clear H. simpl. split.
+  - intros s'. destruct (lost x); auto. rewrite msgs_s2c_app. simpl. apply app_nil_r.
+  - eexists. rewrite lookup_update_eq. split; [reflexivity|]. simpl. auto.
+Qed.
+
+(* decoding an error frame delivers no message: nothing enters the stream queue, no call completes, and no
+   stream's event queue, reads, losses, phase, closed flag or blocked readers change *)
+Theorem error_frame_carries_no_message x x' s r : cdecq x = PErr s :: r -> step current x CDecode = Some x' ->
+  cstrq x' = cstrq x /\ unary_done x' = unary_done x /\
+  (forall s' c, lookup s' (cstreams x) = Some c ->
+     exists c', lookup s' (cstreams x') = Some c' /\ c_events c' = c_events c /\ c_read c' = c_read c /\
+       c_lost c' = c_lost c /\ c_phase c' = c_phase c /\ c_closed c' = c_closed c /\ c_blocked c' = c_blocked c).
+Proof.
+  intros D H. simpl in H. rewrite D in H.
+  assert (K : forall s' c, lookup s' (cstreams x) = Some c -> exists c', lookup s' (cstreams x) = Some c' /\
+            c_events c' = c_events c /\ c_read c' = c_read c /\ c_lost c' = c_lost c /\ c_phase c' = c_phase c /\
+            c_closed c' = c_closed c /\ c_blocked c' = c_blocked c) by (intros s' c E; exists c; auto 10).
+  destruct (lookup s (cstreams x)) as [c0|] eqn:L; [destruct (c_phase c0) eqn:P; try destruct (c_unrouted c0)|];
+    inversion H; subst; clear H; simpl; (split; [reflexivity|split; [reflexivity|]]); auto.
+  intros s' c E. rewrite lookup_update. destruct (Nat.eqb_spec s' s).
+  - subst s'. assert (c = c0) by congruence. subst c0. eexists. split; [reflexivity|]. simpl. auto 10.
+  - exists c. auto 10.
+Qed.
+
+(* the error is attached for good to a stream in its streaming phase *)
+Theorem error_frame_sticks x x' s r c : reachable current x -> cdecq x = PErr s :: r ->
+  lookup s (cstreams x) = Some c -> c_phase c = Streaming -> step current x CDecode = Some x' ->
+  exists c', lookup s (cstreams x') = Some c' /\ c_err c' = true.
+Proof.
+  intros R D L P H. pose proof (never_unrouted _ _ _ R L) as U. simpl in H. rewrite D, L, P, U in H.
+  inversion H; subst; clear H. simpl. eexists. rewrite lookup_update_eq. split; reflexivity.
+Qed.
+
+(* the pinned tree's Conn.send (routing entry deleted by the failed write): the handler's next message is dropped by
+   the client's reader.  After the schedule nothing is left in flight or queued (so CDeliver is not enabled), the
+   message is recorded as lost, and the reader of the stream blocks *)
+Example legacy_badwrite_loses_messages :
+  exists x c, run legacy_badwrite [COpen 1; NetC2S; SDecode; NetS2C; CDecode; CWriteBad 1; SWrite 1 7; NetS2C; CDecode;
+                                   CRead 1] init = Some x
+    /\ lookup 1 (cstreams x) = Some c /\ c_lost c = [7] /\ c_events c = [] /\ c_read c = [] /\ c_blocked c = 1
+    /\ c_unrouted c = true /\ c_wres c = [true]
+    /\ w_s2c x = [] /\ cdecq x = [] /\ cstrq x = [] /\ step legacy_badwrite x CDeliver = None.
+Proof. eexists; eexists; split; [vm_compute; reflexivity|repeat split]. Qed.
+(* the same schedule on the current tree (with the delivery step, which is now enabled) delivers it *)
+Example current_badwrite_delivers :
+  exists x c, run current [COpen 1; NetC2S; SDecode; NetS2C; CDecode; CWriteBad 1; SWrite 1 7; NetS2C; CDecode;
+                           CDeliver; CRead 1] init = Some x
+    /\ lookup 1 (cstreams x) = Some c /\ c_lost c = [] /\ c_events c = [] /\ c_read c = [Got 7] /\ c_blocked c = 0
+    /\ c_unrouted c = false /\ c_wres c = [true].
+Proof. eexists; eexists; split; [vm_compute; reflexivity|repeat split]. Qed.
+(* the very same schedule, in both variants, with a second stream whose message keeps the delivery step enabled:
+   the pinned tree loses stream 1's message (and delivers stream 2's), the current tree delivers it *)
+Definition badwrite_schedule : list action :=
+  [COpen 1; COpen 2; NetC2S; NetC2S; SDecode; SDecode; NetS2C; NetS2C; CDecode; CDecode;
+   CWriteBad 1; SWrite 1 7; SWrite 2 8; NetS2C; NetS2C; CDecode; CDecode; CDeliver; CRead 1].
+Example badwrite_same_schedule :
+  (exists x c c2, run legacy_badwrite badwrite_schedule init = Some x /\
+     lookup 1 (cstreams x) = Some c /\ c_lost c = [7] /\ c_events c = [] /\ c_read c = [] /\
+     lookup 2 (cstreams x) = Some c2 /\ c_lost c2 = [] /\ c_events c2 = [8]) /\
+  (exists x c c2, run current badwrite_schedule init = Some x /\
+     lookup 1 (cstreams x) = Some c /\ c_lost c = [] /\ c_events c = [] /\ c_read c = [Got 7] /\
+     lookup 2 (cstreams x) = Some c2 /\ c_lost c2 = [] /\ c_events c2 = [] /\ cstrq x = [(2, 8)]).
+Proof. split; (eexists; eexists; eexists; split; [vm_compute; reflexivity|repeat split]). Qed.
+
 (* ---- audit ---- *)
 Print Assumptions c2s_conservation.
 Print Assumptions s2c_conservation.
@@ -261,3 +358,11 @@ Print Assumptions close_request_stops_server.
 Print Assumptions close_request_original_false.
 Print Assumptions close_leaves_siblings.
 Print Assumptions close_request_leaves_siblings.
+Print Assumptions never_unrouted.
+Print Assumptions bad_client_write_keeps_stream.
+Print Assumptions bad_server_write_sends_no_message.
+Print Assumptions error_frame_carries_no_message.
+Print Assumptions error_frame_sticks.
+Print Assumptions legacy_badwrite_loses_messages.
+Print Assumptions current_badwrite_delivers.
+Print Assumptions badwrite_same_schedule.
